@@ -467,6 +467,9 @@ func c20Units(thorough bool) []*explore.Unit {
 				if callers >= 4 && !thorough {
 					b = 1
 				}
+				if thorough && n == 2 && callers == 2 {
+					b = 3
+				}
 				units = append(units, &explore.Unit{Name: p.String(), Bound: b, Opt: vrt.Options{MaxSteps: 80000},
 					Body: c20Body(p, out), Check: c20Check(p, out),
 					Sig: func() string { return fmt.Sprintf("created=%v dialed=%v maxopen=%v", out.created, out.dialed, out.maxOpen) }})
